@@ -46,7 +46,7 @@ Positions(s, Test(_)) == { i \in DOMAIN s : Test(s[i]) }
 Count(s, x) == Cardinality({ i \in DOMAIN s : s[i] = x })
 
 \* s is duplicate free
-NoDup(s) == \A i, j \in DOMAIN s : i # j => s[i] # s[j]
+NoDup(s) == Cardinality(SeqRange(s)) = Len(s)
 
 \* bag equality / sub-bag of two sequences
 SameBag(s, t) == /\ Len(s) = Len(t)
